@@ -1,0 +1,25 @@
+//go:build verif
+
+// Contracts for the exovc verifier (/verif). Comment-only: with the tag off this file is not part
+// of the package, with the tag on it declares nothing.
+package types
+
+//@ func UpdateAssetValue
+//@   modifies *valueToUpdate
+//@   ensures[C01.uav.err]    (err != nil) <==> (valueToUpdate == nil || changeValue == nil ||
+//@                             (!isnil(old(*changeValue)) && val(old(*changeValue)) < 0 && val(old(*valueToUpdate)) < -val(old(*changeValue))))
+//@   ensures[C01.uav.ok]     err == nil && !isnil(old(*changeValue)) && val(old(*changeValue)) != 0 ==>
+//@                             !isnil(*valueToUpdate) && val(*valueToUpdate) == val(old(*valueToUpdate)) + val(old(*changeValue))
+//@   ensures[C01.uav.nonneg] err == nil && val(old(*valueToUpdate)) >= 0 && !isnil(old(*valueToUpdate)) ==> val(*valueToUpdate) >= 0 && !isnil(*valueToUpdate)
+//@   ensures[C01.uav.noop]   err == nil && (isnil(old(*changeValue)) || val(old(*changeValue)) == 0) ==> *valueToUpdate == old(*valueToUpdate)
+//@   ensures[C09.uav.atomic] err != nil && valueToUpdate != nil ==> *valueToUpdate == old(*valueToUpdate)
+
+//@ func UpdateAssetDecValue
+//@   modifies *valueToUpdate
+//@   ensures[C01.uadv.err]    (err != nil) <==> (valueToUpdate == nil || changeValue == nil ||
+//@                             (!isnil(old(*changeValue)) && val(old(*changeValue)) < 0 && val(old(*valueToUpdate)) < -val(old(*changeValue))))
+//@   ensures[C01.uadv.ok]     err == nil && !isnil(old(*changeValue)) && val(old(*changeValue)) != 0 ==>
+//@                             !isnil(*valueToUpdate) && val(*valueToUpdate) == val(old(*valueToUpdate)) + val(old(*changeValue))
+//@   ensures[C01.uadv.nonneg] err == nil && val(old(*valueToUpdate)) >= 0 && !isnil(old(*valueToUpdate)) ==> val(*valueToUpdate) >= 0 && !isnil(*valueToUpdate)
+//@   ensures[C01.uadv.noop]   err == nil && (isnil(old(*changeValue)) || val(old(*changeValue)) == 0) ==> *valueToUpdate == old(*valueToUpdate)
+//@   ensures[C09.uadv.atomic] err != nil && valueToUpdate != nil ==> *valueToUpdate == old(*valueToUpdate)
